@@ -107,6 +107,13 @@ def materialise(rec) -> bytes:
         while len(out) < n:
             out += r.choice(words) + b" "
         return bytes(out[:n])
+    if tex == "x86dense":
+        # a call instruction every five bytes, displacement with a sign-extension byte: the x86 filter converts all of them, the last ones too
+        out = bytearray()
+        while len(out) < n + 8:
+            out += b"\xe8" + r.randbytes(3) + bytes([r.choice([0, 0xFF])])
+        off = r.randrange(5)
+        return bytes(out[off : off + n])
     # machine-code-like textures so that BCJ filters really transform bytes
     out = bytearray(r.randbytes(n))
     if tex == "x86":
